@@ -152,8 +152,8 @@ def lane_sens(cfgs, module="MC_Json8259.tla"):
 def lane_machine(thorough):
     """JsonMachine.tla: parser.rs as a state machine (one action per loop iteration, explicit call stack)."""
     runs = []
-    live = run_tlc("MC_JsonMachine.tla", "MC_JsonMachine_live.cfg", D, workers=1, coverage=True, timeout=1200, work_id="c13ml", heap="6g")
-    runs.append(("parser state machine: invariants + termination (liveness), with action coverage", "MC_JsonMachine_live.cfg", live))
+    live = run_tlc("MC_JsonMachine.tla", "MC_JsonMachine_live.cfg", D, workers=1, timeout=1200, work_id="c13ml", heap="6g")
+    runs.append(("parser state machine: all invariants + termination (liveness)", "MC_JsonMachine_live.cfg", live))
     for name, cfg in [("parser state machine, 18-token alphabet", "MC_JsonMachine_%s.cfg" % ("thorough" if thorough else "quick")),
                       ("parser state machine, escape tokens", "MC_JsonMachine_esc.cfg")] + \
                      ([("parser state machine, member-level objects", "MC_JsonMachine_obj.cfg")] if thorough else []):
@@ -209,25 +209,35 @@ def run(tier, replay):
     with open(idx_path, "w") as f:
         f.write(p.stdout)
 
-    # TLC: the big space (4 workers, thorough 5) || the other spaces (1) || small/sensitivity/trace validation (<= 2) || state machine (1): 8 in total
-    with cf.ThreadPoolExecutor(max_workers=4) as ex:
-        f_main = ex.submit(lane_spaces, jb, limit, main_space, 5 if thorough else 4, "m")
-        f_side = ex.submit(lane_spaces, jb, limit, side_spaces, 1, "x")
+    # TLC lanes: pruned spaces + vector replay (2 workers) || complete spaces with the lemma (1-2) || sensitivity + trace
+    # validation (<= 2) || state machine (1) || its coverage run (1): at most 8 workers
+    with cf.ThreadPoolExecutor(max_workers=6) as ex:
+        f_main = ex.submit(lane_spaces, jb, limit, main_space + side_spaces, 2, "m")
+
+        def lane_full():
+            return [(cfg, run_tlc("MC_Json8259.tla", cfg, D, workers=2 if thorough else 1, timeout=2400, work_id="c13c", heap="6g"))
+                    for cfg in ["MC_Json8259_full_%s.cfg" % suffix] + ["MC_Json8259_full_%s.cfg" % x for x in ("num", "obj", "esc", "ser")]]
+
+        def lane_cover():
+            # action coverage of the state machine (-coverage costs ~1 CPU-minute of cost-model construction, own lane)
+            return run_tlc("MC_JsonMachine.tla", "MC_JsonMachine_cover.cfg", D, workers=1, coverage=True, timeout=1800, work_id="c13mc", heap="8g")
 
         def lane2():
-            small = [(cfg, run_tlc("MC_Json8259.tla", cfg, D, workers=1, timeout=2400, work_id="c13c", heap="6g"))
-                     for cfg in ["MC_Json8259_full_%s.cfg" % suffix] + ["MC_Json8259_full_%s.cfg" % x for x in ("num", "obj", "esc", "ser")]]
             sens = lane_sens(SENS)
             dv = trace_validate(docs_path, wid="c13d", par=1 if thorough else 2)
             sv = trace_validate(ser_path, wid="c13e")
             iv = trace_validate(idx_path, wid="c13i")
-            return small, sens, dv, sv, iv
+            return sens, dv, sv, iv
         f_l2 = ex.submit(lane2)
+        f_full = ex.submit(lane_full)
+        f_cover = ex.submit(lane_cover)
         f_mach = ex.submit(lane_machine, thorough)
-        small, sens, (doc_lines, doc_rej, doc_runs), (ser_lines, ser_rej, ser_runs), (idx_lines, idx_rej, idx_runs) = f_l2.result()
-        side = f_side.result()
+        sens, (doc_lines, doc_rej, doc_runs), (ser_lines, ser_rej, ser_runs), (idx_lines, idx_rej, idx_runs) = f_l2.result()
+        small = f_full.result()
         mach_runs, mach_sens = f_mach.result()
-        main = f_main.result()
+        cover = f_cover.result()
+        spaces = f_main.result()
+        main, side = spaces[:1], spaces[1:]
 
     # 1. model checking results
     # Vacuity guard.  The state machine (JsonMachine) runs with -coverage and every action must have been taken.
@@ -246,7 +256,9 @@ def run(tier, replay):
     for name, cfg, r in mach_runs:
         ctx.add_tlc("%s (%s)" % (name, cfg), r)
         ctx.require_tlc_ok(cfg, r)
-    ctx.require_cover("MC_JsonMachine_live", mach_runs[0][2], MACHINE_ACTIONS)
+    ctx.add_tlc("parser state machine: action coverage (MC_JsonMachine_cover.cfg)", cover)
+    ctx.require_tlc_ok("MC_JsonMachine_cover.cfg", cover)
+    ctx.require_cover("MC_JsonMachine_cover", cover, MACHINE_ACTIONS)
     for cfg, dev, r in sens + mach_sens:
         ctx.add_tlc("sensitivity: Dev={%s} must violate (%s)" % (dev, cfg), r)
         if r.violation != "invariant":
